@@ -12,7 +12,8 @@ PeersT == PeersQ \cup { P(FALSE, 1, 1), P(FALSE, 3, 0), P(TRUE, 2, 3) }
 Peers == IF Tier = "quick" THEN PeersQ ELSE PeersT
 Ups == [peers : { <<p>> : p \in Peers }, maxConns : {0, 2}]
        \cup [peers : { <<p, q>> : p \in PeersQ, q \in {P(FALSE, 0, 0), P(FALSE, 0, 2), P(TRUE, 0, 0)} }, maxConns : {2}]
-MaxPool == IF Tier = "quick" THEN 3 ELSE 3
+\* Tier "sim": pools of up to 8 upstreams, visited by random walks (tlc -simulate); the exhaustive tiers stop at 3
+MaxPool == IF Tier = "sim" THEN 8 ELSE 3
 
 VARIABLES pool, mf
 GInit == pool = <<>> /\ mf \in {0, 2}
